@@ -12,9 +12,10 @@ import Logrange.Go.Basic
   as the library's loop: delimiter in the buffered bytes ⇒ the line through it; else buffer full ⇒ all `B` bytes
   (`ErrBufferFull`); else `fill()` once from the source; a source EOF hands out everything buffered with `io.EOF`
   (not sticky).
-* `readLine` is `lineReader.readLine`: accumulate across EOFs, split on buffer full, `len(buf)=0 ∧ EOF ⇒ EOF`,
-  context cancelled ⇒ `ErrClosedPipe` and the accumulated partial line is dropped (it carries it here as
-  `closed pending` so that theorems can talk about it).
+* `readLine` is `lineReader.readLine` (since fix 7a8317a): one `ReadSlice`; a complete line or a full buffer is
+  returned with the pending partial line (`pend`, reader state) in front of it; on a source EOF the bytes read are
+  appended to `pend` and `io.EOF` is reported — the caller polls again (a live file completes the line later) or
+  stops; context cancelled ⇒ `ErrClosedPipe`, `pend` untouched.
 * `Parser`: `pos += len(line)` of the four parsers (payload handling of k8s/logfmt is out of scope), and
   `SetStreamPos` = seek + `lr.reset` (fresh buffer, fresh source from the new offset).
 -/
@@ -43,6 +44,7 @@ def measure : List Piece → Nat
 structure St where
   pieces : List Piece
   buf : Bytes := []            -- bufio's buffered, unread bytes
+  pend : Bytes := []           -- lineReader.pend: the partial line kept between calls
   cancelled : Bool := false    -- ctx.Err() != nil
 deriving Repr
 
@@ -91,43 +93,32 @@ def sliceFuel (s : St) : Nat := measure s.pieces + 1
 /-- result of `lineReader.readLine` -/
 inductive RL where
   | line (l : Bytes)
-  | eof                         -- (nil, io.EOF): nothing buffered, nothing pending
-  | closed (pending : Bytes)    -- (nil, io.ErrClosedPipe): the pending partial line is dropped
-  | oof (pending : Bytes)
+  | eof          -- (nil, io.EOF): the source has nothing more for now; a partial line, if any, stays in `pend`
+  | closed       -- (nil, io.ErrClosedPipe)
+  | oof
 deriving DecidableEq, Repr
 
-def RL.pending : RL → Bytes
-  | .line _ => []
-  | .eof => []
-  | .closed p => p
-  | .oof p => p
+/-- what a call hands out -/
+def RL.out : RL → Bytes
+  | .line l => l
+  | _ => []
 
-def readLineGo (B : Nat) : Nat → St → Bytes → St × RL
-  | 0, s, acc => (s, .oof acc)
-  | fuel+1, s, acc =>
-    if s.cancelled then (s, .closed acc)
-    else match readSlice B (sliceFuel s) s with
-      | (s', .line l) => (s', .line (acc ++ l))
-      | (s', .full l) => (s', .line (acc ++ l))
-      | (s', .eof l) => if (acc ++ l).isEmpty then (s', .eof) else readLineGo B fuel s' (acc ++ l)
-      | (s', .oof) => (s', .oof acc)
+/-- `lineReader.readLine` -/
+def readLine (B : Nat) (s : St) : St × RL :=
+  if s.cancelled then (s, .closed)
+  else match readSlice B (sliceFuel s) s with
+    | (s', .line l) => ({ s' with pend := [] }, .line (s.pend ++ l))
+    | (s', .full l) => ({ s' with pend := [] }, .line (s.pend ++ l))
+    | (s', .eof l) => ({ s' with pend := s.pend ++ l }, .eof)
+    | (s', .oof) => (s', .oof)
 
-/-- every retry consumes an `eof` piece or ends the script, so `pieces.length + 2` rounds suffice -/
-def readLine (B : Nat) (s : St) : St × RL := readLineGo B (s.pieces.length + 2) s []
-
-/-- up to `n` calls of `readLine`; stops at the first call that does not return a line -/
-def readLines (B : Nat) : Nat → St → List Bytes × St × Option RL
-  | 0, s => ([], s, none)
+/-- `n` calls of `readLine` (the caller polls again after an EOF); the lines they returned, in order -/
+def readLines (B : Nat) : Nat → St → List Bytes × St
+  | 0, s => ([], s)
   | n+1, s =>
     match readLine B s with
-    | (s', .line l) =>
-      let r := readLines B n s'
-      (l :: r.1, r.2.1, r.2.2)
-    | (s', r) => ([], s', some r)
-
-def pendingOf : Option RL → Bytes
-  | none => []
-  | some r => r.pending
+    | (s', .line l) => let r := readLines B n s'; (l :: r.1, r.2)
+    | (s', _) => readLines B n s'
 
 /-! ## the parsers' offset accounting -/
 
@@ -151,17 +142,16 @@ def nextRecord (B : Nat) (p : Parser) : Parser × NR :=
   | (s', .eof) => ({ p with lr := s' }, .eof)
   | (s', _) => ({ p with lr := s' }, .err)
 
-/-- `SetStreamPos(pos)`: `f.Seek(pos)`, `pp.pos = pos`, `lr.reset(f)`; `src` = how the file's bytes from `pos` on
-will arrive. -/
+/-- `SetStreamPos(pos)`: `f.Seek(pos)`, `pp.pos = pos`, `lr.reset(f)` (fresh buffer, `pend = nil`); `src` = how the
+file's bytes from `pos` on will arrive. -/
 def setStreamPos (pos : Nat) (src : List Piece) : Parser := { lr := { pieces := src }, pos := pos }
 
-def nextRecords (B : Nat) : Nat → Parser → List Bytes × Parser × Option NR
-  | 0, p => ([], p, none)
+/-- `n` calls of `NextRecord` (polling again after EOF or an error); the records returned, in order -/
+def nextRecords (B : Nat) : Nat → Parser → List Bytes × Parser
+  | 0, p => ([], p)
   | n+1, p =>
     match nextRecord B p with
-    | (p', .record l) =>
-      let r := nextRecords B n p'
-      (l :: r.1, r.2.1, r.2.2)
-    | (p', r) => ([], p', some r)
+    | (p', .record l) => let r := nextRecords B n p'; (l :: r.1, r.2)
+    | (p', _) => nextRecords B n p'
 
 end Logrange.LineReader
